@@ -82,10 +82,13 @@ type in struct {
 }
 
 // ids 10..12 are the reserved names PKG, LSTRING, LTABLE of the model
-var modNames = []string{"vhm0", "vhm1", "vhp.m2", "vhm3", "vhm4", "vhm5", "vhm6", "vhm7", "vhm8", "vhm9",
+// id 4 is a name longer than a file name may be (stat fails with ENAMETOOLONG); it never has a file
+var modNames = []string{"vhm0", "vhm1", "vhp.m2", "vhm3", "vhl" + strings.Repeat("x", 260), "vhm5", "vhm6", "vhm7", "vhm8", "vhm9",
 	"package", "string", "table"}
 
-const nDirs = 3
+// directories d0..d2 are ordinary; in d3 the entry "vhp" is a regular FILE, so the path of the dotted
+// module vhp.m2 there runs through a file (stat fails with ENOTDIR, not ENOENT)
+const nDirs = 4
 
 func nameID(s string) int {
 	for i, n := range modNames {
@@ -318,10 +321,16 @@ type envT struct {
 func newEnv() *envT {
 	e := &envT{base: fmt.Sprintf("/tmp/vh-req-%d", os.Getpid()), written: map[string]bool{}}
 	os.RemoveAll(e.base)
-	for d := 0; d < nDirs; d++ {
+	for d := 0; d < nDirs-1; d++ {
 		if err := os.MkdirAll(filepath.Join(e.base, fmt.Sprintf("d%d", d), "vhp"), 0o755); err != nil {
 			panic(err)
 		}
+	}
+	if err := os.MkdirAll(filepath.Join(e.base, "d3"), 0o755); err != nil {
+		panic(err)
+	}
+	if err := os.WriteFile(filepath.Join(e.base, "d3", "vhp"), []byte("not a directory\n"), 0o644); err != nil {
+		panic(err)
 	}
 	return e
 }
@@ -911,7 +920,30 @@ func classOf(x in, obs []obsT) (class string, nontrivial bool) {
 	return strings.Join(ks, "+"), nreq >= 2 && (ninv >= 1 || len(x.Init) > 0)
 }
 
+// files cannot exist where stat fails for another reason than absence (name 4 anywhere, vhp.m2 in
+// d3): such file operations become preload operations / go to d0, so that the model's file map
+// stays what the file system holds
+func sanitize(ops []Op) []Op {
+	out := make([]Op, 0, len(ops))
+	for _, o := range ops {
+		if o.Op == "file" {
+			if o.N == 4 {
+				if o.File != nil && !o.File.Broken {
+					o = Op{Op: "preload", N: 4, Loader: &Loader{Kind: "lua", Script: o.File.Script}}
+				} else {
+					o = Op{Op: "getloaded", N: 4}
+				}
+			} else if o.D == 3 && o.N == 2 {
+				o.D = 0
+			}
+		}
+		out = append(out, o)
+	}
+	return out
+}
+
 func runCase(w *lib.Writer, env *envT, x in) {
+	x.Ops = sanitize(x.Ops)
 	if !x.AllowUnguarded && !inputGuarded(x) {
 		w.Meta.Discarded++
 		return
